@@ -167,6 +167,94 @@ impl Session {
     }
 }
 
+/// The conforming streaming UTF-8 decoder (WHATWG Encoding, the algorithm of Memterm/Utf8.lean), kept
+/// by the harness as the reference the property names: "exactly the decoding ... by a conforming
+/// streaming decoder".  Independent of the crate and of encoding_rs.
+pub struct RefDecoder {
+    needed: u32,
+    seen: u32,
+    cp: u32,
+    lower: u8,
+    upper: u8,
+}
+
+impl RefDecoder {
+    pub fn new() -> RefDecoder {
+        RefDecoder { needed: 0, seen: 0, cp: 0, lower: 0x80, upper: 0xBF }
+    }
+    pub fn feed(&mut self, bytes: &[u8], out: &mut String) {
+        let mut i = 0;
+        while i < bytes.len() {
+            let b = bytes[i];
+            if self.needed == 0 {
+                match b {
+                    0x00..=0x7F => out.push(b as char),
+                    0xC2..=0xDF => {
+                        self.needed = 1;
+                        self.cp = (b & 0x1F) as u32;
+                    }
+                    0xE0..=0xEF => {
+                        if b == 0xE0 {
+                            self.lower = 0xA0;
+                        }
+                        if b == 0xED {
+                            self.upper = 0x9F;
+                        }
+                        self.needed = 2;
+                        self.cp = (b & 0x0F) as u32;
+                    }
+                    0xF0..=0xF4 => {
+                        if b == 0xF0 {
+                            self.lower = 0x90;
+                        }
+                        if b == 0xF4 {
+                            self.upper = 0x8F;
+                        }
+                        self.needed = 3;
+                        self.cp = (b & 0x07) as u32;
+                    }
+                    _ => out.push('\u{fffd}'),
+                }
+                i += 1;
+                continue;
+            }
+            if b < self.lower || b > self.upper {
+                // ill-formed: one U+FFFD for the maximal subpart, the byte is looked at again
+                self.cp = 0;
+                self.needed = 0;
+                self.seen = 0;
+                self.lower = 0x80;
+                self.upper = 0xBF;
+                out.push('\u{fffd}');
+                continue;
+            }
+            self.lower = 0x80;
+            self.upper = 0xBF;
+            self.cp = (self.cp << 6) | (b & 0x3F) as u32;
+            self.seen += 1;
+            if self.seen == self.needed {
+                out.push(char::from_u32(self.cp).unwrap_or('\u{fffd}'));
+                self.cp = 0;
+                self.needed = 0;
+                self.seen = 0;
+            }
+            i += 1;
+        }
+    }
+}
+
+/// The shadow of a byte session: the crate's own character recogniser, fed with what the reference decoder
+/// makes of the same bytes.  If the events of `ByteParser` differ from the shadow's, the bytes were not
+/// decoded as the reference decodes them (whatever the recogniser does with characters, it does the same
+/// on both sides) - that is C11's question, asked without any model.
+pub struct Shadow<'a> {
+    pub tap: Arc<Mutex<Tap>>,
+    pub parser: Parser<'a, Tap>,
+    pub dec: RefDecoder,
+    pub utf8: bool,
+    pub dead: bool,
+}
+
 pub enum AnyParser<'a> {
     C(Parser<'a, Tap>),
     B(ByteParser<'a, Tap>),
@@ -177,6 +265,7 @@ pub struct Runner<'a> {
     pub parser: AnyParser<'a>,
     pub snap: Option<Screen>,
     pub parser_dead: bool,
+    pub shadow: Option<Shadow<'a>>,
 }
 
 fn lock(t: &Arc<Mutex<Tap>>) -> std::sync::MutexGuard<'_, Tap> {
@@ -194,7 +283,15 @@ impl<'a> Runner<'a> {
         } else {
             AnyParser::C(Parser::new(tap.clone()))
         };
-        Runner { tap, parser, snap: None, parser_dead: false }
+        let shadow = if bytes {
+            let st = Arc::new(Mutex::new(Tap::new(columns, lines)));
+            lock(&st).events_only = true;
+            lock(&st).quiet = true;
+            Some(Shadow { tap: st.clone(), parser: Parser::new(st), dec: RefDecoder::new(), utf8: true, dead: false })
+        } else {
+            None
+        };
+        Runner { tap, parser, snap: None, parser_dead: false, shadow }
     }
 
     pub fn dead(&self) -> bool {
@@ -241,7 +338,34 @@ impl<'a> Runner<'a> {
                         }
                         t.out.push(l);
                     }
+                    lock(&self.tap).calls_log.clear();
                     let r = catch_unwind(AssertUnwindSafe(|| p.feed(b)));
+                    // the same bytes through the reference decoder and the crate's character recogniser
+                    if let (Ok(()), Some(sh)) = (&r, self.shadow.as_mut()) {
+                        if !sh.dead {
+                            let mut chars = String::new();
+                            if sh.utf8 {
+                                sh.dec.feed(b, &mut chars);
+                            } else {
+                                chars.extend(b.iter().map(|x| *x as char));
+                            }
+                            lock(&sh.tap).calls_log.clear();
+                            let sp = &mut sh.parser;
+                            let rs = catch_unwind(AssertUnwindSafe(|| sp.feed(chars)));
+                            if rs.is_err() {
+                                sh.dead = true;
+                            } else {
+                                let want = std::mem::take(&mut lock(&sh.tap).calls_log);
+                                let mut t = lock(&self.tap);
+                                if !t.dead && !t.quiet && t.calls_log != want {
+                                    let k = t.calls_log.iter().zip(want.iter()).take_while(|(a, b)| a == b).count();
+                                    let got = t.calls_log.get(k).cloned().unwrap_or_else(|| "(no further call)".into());
+                                    let exp = want.get(k).cloned().unwrap_or_else(|| "(no further call)".into());
+                                    t.out.push(format!("DEC {} | {} | {}", k, got, exp));
+                                }
+                            }
+                        }
+                    }
                     let mut t = lock(&self.tap);
                     match r {
                         Ok(()) => {
@@ -260,6 +384,22 @@ impl<'a> Runner<'a> {
                 if let AnyParser::B(p) = &mut self.parser {
                     let before = lock(&self.tap).ncalls;
                     p.select_other_charset(c);
+                    if let Some(sh) = self.shadow.as_mut() {
+                        // the documented switch: "@" = one byte one code point (and a new decoder), "G" / "8" = UTF-8
+                        match c.as_str() {
+                            "@" => {
+                                sh.utf8 = false;
+                                sh.parser.set_use_utf8(false);
+                                sh.dec = RefDecoder::new();
+                            }
+                            "G" | "8" => {
+                                // (a sequence held while already in UTF-8 mode survives a redundant switch)
+                                sh.utf8 = true;
+                                sh.parser.set_use_utf8(true);
+                            }
+                            _ => {}
+                        }
+                    }
                     let mut t = lock(&self.tap);
                     if t.ncalls != before {
                         // a mode switch is not input: it must not reach the listener
